@@ -39,8 +39,15 @@ theorem recvMsg_append (p r : Bytes) : recvMsg (p ++ r) p.length = some (p, r) :
 theorem buildHead_length (a b : Nat) : (buildHead a b).length = 8 := by
   rw [buildHead_eq]; simp [putU32_length]
 
+/-- with the regenerated field order the read message is head(data length, TLS length) ++ data ++ TLS -/
+theorem encodeRead_eq (data tls : Bytes) : encodeRead data tls = buildHead data.length tls.length ++ data ++ tls := by
+  simp [encodeRead, readHeadIsDataThenTls]
+
+theorem encodeWrite_eq (id : Nat) (data : Bytes) : encodeWrite id data = buildHead data.length id ++ data := by
+  simp [encodeWrite, writeSendLenFirst]
+
 theorem encodeRead_length (data tls : Bytes) : (encodeRead data tls).length = 8 + data.length + tls.length := by
-  simp only [encodeRead, List.length_append, buildHead_length]
+  simp only [encodeRead_eq, List.length_append, buildHead_length]
 
 theorem recvMsg_short (s : Bytes) (n : Nat) (h : s.length < n) : recvMsg s n = none := by
   unfold recvMsg; rw [if_pos h]
@@ -71,7 +78,7 @@ theorem decodeRead_prefix_none (data tls : Bytes) (h1 : data.length < 4294967296
   · apply decodeRead_short_head
     rw [List.length_take]; omega
   · have hsplit : (encodeRead data tls).take n = buildHead data.length tls.length ++ (data ++ tls).take (n - 8) := by
-      simp only [encodeRead, List.append_assoc]
+      simp only [encodeRead_eq, List.append_assoc]
       rw [List.take_append, buildHead_length]
       rw [List.take_of_length_le (by rw [buildHead_length]; omega)]
     rw [hsplit]
@@ -100,6 +107,6 @@ theorem decodeWrite_some_of (s : Bytes) (size id : Nat) (r p rest : Bytes) (hh :
     (hm : recvMsg r size = some (p, rest)) : decodeWrite s = some (id, p, rest) := by
   unfold decodeWrite
   rw [hh]
-  simp only [hm]
+  simp only [writeRecvSizeFirst, ↓reduceIte, hm]
 
 end MosnVerif.Model.Transfer
